@@ -15,7 +15,7 @@ RULE = ("one evaluation = one (stack shape, construction route, operation): shap
 ASSUMPTIONS = ["siblings of an emitting/consuming sublayer inside the same group are unspecified by the statement: only 'at most once' is required of them",
                "for a deferred event only layers beyond the first receiving item are required to wait for the loop",
                "the deferred queue is shared by all stacks of a process; it is drained between cases"]
-REQUIRED = ["shape_ops", "event_ops", "detached_ops", "helper_combos", "default_stack_combos", "interface_lookups", "groups_seen"]
+REQUIRED = ["earlier_stacks_rechecked", "earlier_stacks_intact", "shape_ops", "event_ops", "detached_ops", "helper_combos", "default_stack_combos", "interface_lookups", "groups_seen"]
 EXHAUSTIVE = None
 
 LOG = []
@@ -409,9 +409,51 @@ def judge_layerset(acc, names, flags, w, need_enc=True, top=None):
     acc.count("helper_ok")
 
 
+def wiring_faults(st):
+    """Neighbour links and stack membership of every layer of one stack (sublayers of parallel groups included)."""
+    from yowsup.layers import YowParallelLayer
+    layers = []
+    i = 0
+    while True:
+        try:
+            layers.append(st.getLayer(i))
+        except IndexError:
+            break
+        i += 1
+    out = []
+    for i, l in enumerate(layers):
+        up = getattr(l, "_YowLayer__upper", None)
+        lo = getattr(l, "_YowLayer__lower", None)
+        if i + 1 < len(layers) and up is not layers[i + 1]:
+            out.append("layer %d (%s): upper neighbour is %s, expected this stack's layer %d" % (i, l.__class__.__name__, up.__class__.__name__, i + 1))
+        if i > 0 and lo is not layers[i - 1]:
+            out.append("layer %d (%s): lower neighbour is %s, expected this stack's layer %d" % (i, l.__class__.__name__, lo.__class__.__name__, i - 1))
+        members = [l] + (list(l.sublayers) if isinstance(l, YowParallelLayer) else [])
+        for m in members:
+            try:
+                if m.getStack() is not st:
+                    out.append("layer %d (%s) belongs to another stack" % (i, m.__class__.__name__))
+            except Exception as e:  # noqa
+                out.append("layer %d (%s): getStack raised %r" % (i, m.__class__.__name__, e))
+    return out
+
+
+def recheck_earlier(acc, kept):
+    """Stacks built earlier in this process must still be intact after later ones were assembled."""
+    for k, (desc, st) in enumerate(kept):
+        acc.count("earlier_stacks_rechecked")
+        f = wiring_faults(st)
+        if f:
+            acc.violation("earlier-stack-rewired", "a stack built earlier (%s, #%d of %d) is no longer wired to its own layers after later stacks were built: %s"
+                          % (desc, k, len(kept), f[:3]), {"helper": "recheck", "stack": desc, "faults": f[:6]})
+            return
+    acc.count("earlier_stacks_intact", len(kept))
+
+
 def helpers(acc):
     from yowsup.stacks import YowStack, YowStackBuilder
     from yowsup.layers import YowParallelLayer
+    kept = []
     keys = ["groups", "media", "privacy", "profiles"]
     for bits in itertools.product([False, True], repeat=4):
         flags = dict(zip(keys, bits))
@@ -427,6 +469,10 @@ def helpers(acc):
             layers = YowStackBuilder.getDefaultLayers(**flags)
             st = YowStack(layers, reversed=False)
             judge_layerset(acc, flat_names(st), flags, w)
+            f = wiring_faults(st)
+            if f:
+                acc.violation("helper-wiring", "a fresh stack from getDefaultLayers%r is miswired: %s" % (flags, f[:3]), w)
+            kept.append(("getDefaultLayers%r" % (bits,), st))
         except Exception as e:  # noqa
             acc.violation("helper-raises:getDefaultLayers:%s" % type(e).__name__, "getDefaultLayers%r raised %r" % (flags, e), w)
         for axolotl in (False, True):
@@ -438,6 +484,9 @@ def helpers(acc):
                     Top = rec_class("top")
                     st = YowStackBuilder.getDefaultStack(layer=Top if extra else None, axolotl=axolotl, **flags)
                     judge_layerset(acc, flat_names(st), flags, w, need_enc=axolotl, top="Rec_top" if extra else None)
+                    kept.append(("getDefaultStack%r axolotl=%s" % (bits, axolotl), st))
+                    if len(kept) % 16 == 0:
+                        recheck_earlier(acc, kept)
                 except Exception as e:  # noqa
                     acc.violation("helper-raises:getDefaultStack:%s" % type(e).__name__, "getDefaultStack(%s) raised %r" % (w, e), w)
     # positional use and defaults
@@ -457,6 +506,14 @@ def helpers(acc):
         acc.case_enum()
         st = YowStackBuilder().pushDefaultLayers().push(rec_class("app")).build()
         judge_layerset(acc, flat_names(st), dict.fromkeys(keys, True), {"helper": "pushDefaultLayers"}, top="Rec_app")
+        kept.append(("builder.pushDefaultLayers", st))
+        # a builder with pushed and popped layers
+        b = YowStackBuilder().pushDefaultLayers().push(rec_class("tmp"))
+        b.pop()
+        st2 = b.push(rec_class("app2")).build()
+        judge_layerset(acc, flat_names(st2), dict.fromkeys(keys, True), {"helper": "push-pop-push"}, top="Rec_app2")
+        kept.append(("builder.push/pop/push", st2))
+        recheck_earlier(acc, kept)
         # interfaces of layers inside the default parallel groups are found by class
         from yowsup.layers.protocol_iq import YowIqProtocolLayer
         from yowsup.layers.network import YowNetworkLayer
